@@ -187,7 +187,7 @@ def check_global_attr_precedence(ctx):
                                                   ("flat_line_test", "temp", {"tolerance": 1, "suspect_threshold": 1, "fail_threshold": 2})])}
         ds = xr.Dataset(decoy, attrs={"ioos_qc_config": _json.dumps(d)})
         e = {"id": n + 1, "cid": n, "ev": "load", "cfg": cfg, "layout": layout, "carrier": "xr_global", "exc": "", "calls": [],
-             "ncalls": 0, "rt": {"exc": "", "calls": []}}
+             "ncalls": 0, "rt": {"exc": "", "calls": []}, "again": {"done": False, "exc": "", "calls": [], "ncalls": 0}}
         try:
             c = Config(ds)
             e["calls"], e["ncalls"] = cc.project_calls(c.calls), len(c.calls)
